@@ -199,6 +199,12 @@ static int32_t mus2mid_writevarlen(int32_t value, uint8_t *out)
 {
     int32_t buffer, count = 0;
 
+    /* a variable length quantity has at most 28 bits */
+    if (value < 0)
+        value = 0;
+    if (value > 0x0FFFFFFF)
+        value = 0x0FFFFFFF;
+
     buffer = value & 0x7f;
     while ((value >>= 7) > 0) {
         buffer <<= 8;
